@@ -81,6 +81,8 @@ def akai_sample(rng, name):
     loops = []
     for _ in range(rng.randint(0, 8)):
         at = rng.randrange(1, 1 << 24)
+        if len(loops) == 1:
+            at = 0  # S167: the second loop of every sample ends at 0 - a stored value like any other
         loops.append(GA.Loop(at=at, fine=rng.randrange(65536), coarse=rng.randrange(0, 1 << 20), duration=rng.choice([0, 0, 1, 50, 9998, 9999, rng.randrange(65536)])))
     s = GA.SampleFile(name, GA.random_words(rng, n), start=rng.randrange(1 << 24), end=rng.randrange(1 << 24), rate=rng.choice([0, 0, 22050, 44100, rng.randrange(1, 65536)]),
                       s3000=rng.random() < 0.5, note=rng.randrange(24, 128), sname=rng.choice(["INNER", "SMP " + name[:6], name, "X.1"]), loop_type=rng.randrange(5),
